@@ -247,12 +247,19 @@ class Sign(Machine):
         pop = host.swarm.get("entropy", "sim")
         ex["entropy_population"][pop] = ex["entropy_population"].get(pop, 0) + 1
         host.mkdir("keys")
+        with open(world.KMS_SCRIPT, "rb") as fh:
+            host.write("kms2/basic_kms.py", fh.read())
         for kdef in op["keys"]:
             key = world.make_private_key(host.seed, kdef["name"], kdef["kind"])
             host.write(f"keys/{kdef['name']}.{kdef['enc']}", world.private_key_bytes(key, kdef["enc"]))
             model["keys"][kdef["name"]] = {"pub": key.public_key(), "kind": kdef["kind"], "enc": kdef["enc"]}
             if "." in kdef["name"]:
                 ex["dotted_key_names"] = ex.get("dotted_key_names", 0) + 1
+            # a second vendor's copy of the KMS script - the same file name in another directory, beside its own keys
+            # (same key names, other key material); used without a context, i.e. with the directory of the script itself
+            key2 = world.make_private_key(host.seed, kdef["name"] + "@kms2", kdef["kind"])
+            host.write(f"kms2/{kdef['name']}.{kdef['enc']}", world.private_key_bytes(key2, kdef["enc"]))
+            model.setdefault("keys2", {})[kdef["name"]] = {"pub": key2.public_key(), "kind": kdef["kind"], "enc": kdef["enc"]}
             if kdef.get("decoy"):
                 decoy = world.make_private_key(host.seed, kdef["name"] + "-decoy", kdef["kind"])
                 for enc in ("pem", "der"):
@@ -290,13 +297,21 @@ class Sign(Machine):
             return model["slots"][op["out"]]["rel"]
         return self.odd_for(op["out"]) + ".suit"
 
+    @staticmethod
+    def _second_kms(op):
+        return (op["i"] * 7 + len(op["key"])) % 4 == 0
+
     def _run_sign1(self, host, model, op, faults, in_rel, out_rel):
         ctx = self._context(host, op)
+        kms = world.KMS_SCRIPT
+        if self._second_kms(op):
+            kms, ctx = host.path("kms2/basic_kms.py"), None
+            model["_extra"]["second_kms_script_used"] = model["_extra"].get("second_kms_script_used", 0) + 1
         if op["entry"] == "cli":
             argv = ["sign", "single-level", "--input-envelope", host.path(in_rel), "--output-envelope",
                     host.path(out_rel), "--key-name", op["key"], "--key-id",
-                    hex(op["kid"]) if op["kid"] % 3 else str(op["kid"]), "--alg", op["alg"], "--context", ctx,
-                    "--sign-script", world.SIGN_SCRIPT, "--kms-script", world.KMS_SCRIPT,
+                    self.num(op["kid"], (op["i"], "k")), "--alg", op["alg"]] + (["--context", ctx] if ctx is not None else []) + [
+                    "--sign-script", world.SIGN_SCRIPT, "--kms-script", kms,
                     "--already-signed-action", op["action"]]
             return host.cli(argv, kind="sign1", faults=faults)
         data = host.read(in_rel)
@@ -308,7 +323,7 @@ class Sign(Machine):
 
             signer = importlib.import_module("ncs.sign_script").suit_signer_factory()
             env = signer.sign_envelope(cbor2.loads(data), op["key"], op["kid"], SuitSignAlgorithms(op["alg"]), ctx,
-                                       world.KMS_SCRIPT, SignatureAlreadyPresentActions(op["action"]))
+                                       kms, SignatureAlreadyPresentActions(op["action"]))
             return cbor2.dumps(env)
 
         o = host.tool(run, kind="sign1_lib", faults=faults)
@@ -328,7 +343,7 @@ class Sign(Machine):
         except cborr.CborError:
             model["_abstract"] = "unreadable-input"
             return []
-        kinfo = model["keys"][op["key"]]
+        kinfo = model["keys2" if self._second_kms(op) else "keys"][op["key"]]
         match = key_matches(kinfo["kind"], op["alg"])
         signed = n_sigs > 0
         expect_refuse = (signed and op["action"] == "error") or (not match and not (signed and op["action"] == "skip"))
